@@ -240,7 +240,7 @@ class Templates:
         if name not in idx:
             idx[name] = None
             raws = [r for r in b.crate["bodies"] if r["key"] == name]
-            if len(raws) == 1 and raws[0]["kind"] in ("Fn", "AssocFn"):
+            if len(raws) == 1 and raws[0]["kind"] in ("Fn", "AssocFn", "Closure"):
                 cb = mir.Body(raws[0], b.crate)
                 if not cb.derived:
                     t = Templates(cb)
@@ -345,6 +345,32 @@ class Templates:
 
     def text(self, stream):
         return " ".join(self.render(stream))
+
+
+def alpha(text):
+    """Rendered template text with the plain (non `__`) binders it introduces renamed to $1, $2, … in
+    order of binding: `let x`, `let mut x`, `ref x`, `for x in`, `| x |`.  Renaming such a local in the
+    generator does not change the result."""
+    toks = text.split(" ")
+    names = {}
+
+    def bind(n):
+        if re.match(r"^[a-z_][A-Za-z0-9_]*$", n) and not n.startswith("__") and n not in ("mut", "ref", "_", "self") and n not in names:
+            names[n] = "$%d" % (len(names) + 1)
+
+    for i, t in enumerate(toks):
+        if t == "let" and i + 1 < len(toks):
+            j = i + 2 if toks[i + 1] == "mut" and i + 2 < len(toks) else i + 1
+            if j + 1 < len(toks) and toks[j + 1] in ("=", ":", ";"):
+                bind(toks[j])
+        elif t == "ref" and i + 1 < len(toks):
+            j = i + 2 if toks[i + 1] == "mut" and i + 2 < len(toks) else i + 1
+            bind(toks[j])
+        elif t == "for" and i + 2 < len(toks) and toks[i + 2] == "in":
+            bind(toks[i + 1])
+        elif t == "|" and i + 2 < len(toks) and toks[i + 2] == "|":
+            bind(toks[i + 1])
+    return " ".join(names.get(t, t) for t in toks)
 
 
 def tag(ty):
